@@ -589,6 +589,11 @@ class PulseSequence:
             required by other computations. Only applies if
             control_matrix is not supplied.
         """
+        if self.is_cached('omega') and not np.array_equal(self.omega, omega):
+            # Caching for different frequencies. Remove all cached attributes
+            # that are frequency-dependent
+            self.cleanup('frequency dependent')
+
         if control_matrix is None:
             control_matrix = self.get_control_matrix(omega, show_progressbar, cache_intermediates)
 
@@ -762,6 +767,11 @@ class PulseSequence:
         --------
         PulseSequence.get_filter_function : Getter method
         """
+        if self.is_cached('omega') and not np.array_equal(self.omega, omega):
+            # Caching for different frequencies. Remove all cached attributes
+            # that are frequency-dependent
+            self.cleanup('frequency dependent')
+
         if filter_function is None:
             if order == 1:
                 if control_matrix is None:
@@ -986,6 +996,11 @@ class PulseSequence:
             The total phase factors for the frequencies *omega*. If
             ``None``, they are computed.
         """
+        if self.is_cached('omega') and not np.array_equal(self.omega, omega):
+            # Caching for different frequencies. Remove all cached attributes
+            # that are frequency-dependent
+            self.cleanup('frequency dependent')
+
         if total_phases is None:
             total_phases = util.cexp(np.asarray(omega)*self.tau)
 
